@@ -270,4 +270,20 @@ theorem filter_arrays_from_source (ids authors : List Bytes) (kinds : List Nat) 
     Pocket.filter_header_from_source ids authors kinds tagBytes since «until» limit]
   simp [List.append_assoc]
 
+/-- **what `Event::from_parts` and `Filter::from_parts` refuse**, read from the statements between the size computation and the first
+write on every run: the model's constructors refuse exactly then (an event or filter beyond `u32::MAX`, a count beyond `u16::MAX`, a
+buffer shorter than the value) and otherwise return the encoding followed by the untouched rest of the buffer -/
+theorem rejections_from_source (id pk sig : Bytes) (kind t : Nat) (tagBytes content buf : Bytes)
+    (ids authors : List Bytes) (kinds : List Nat) (since «until» limit : Nat) :
+    (eventFromParts id pk sig kind t tagBytes content buf =
+      if Src.eventRejects (Src.eventSize tagBytes.length content.length) buf.length then .err
+      else .ok (Src.encodeEventWith id pk sig kind t tagBytes content ++ buf.drop (Src.eventSize tagBytes.length content.length))) ∧
+    (filterFromParts ids authors kinds tagBytes since «until» limit buf =
+      if Src.filterRejects ids.length authors.length kinds.length (filterSize ids.length authors.length kinds.length tagBytes.length) buf.length
+      then .err
+      else .ok (encodeFilterWith ids authors kinds tagBytes since «until» limit ++
+                buf.drop (filterSize ids.length authors.length kinds.length tagBytes.length))) :=
+  ⟨event_rejections_from_source id pk sig kind t tagBytes content buf,
+   filter_rejections_from_source ids authors kinds tagBytes since «until» limit buf⟩
+
 end Pocket.C19
